@@ -131,6 +131,7 @@ class Sched:
         """chooser(runnable, pending, step_no) -> worker index. Returns 'ok' or 'deadlock'."""
         threads = [threading.Thread(target=self.worker, args=(i,), daemon=True) for i in range(self.n)]
         tracer = trace.Tracer(self.real.root, on_point=self.on_point)
+        tracer.on_flock_wait = lambda rel: self.yield_point(("flock-wait", rel))
         # the truncate of an r+ rewrite is a scheduling point too
         orig_event = tracer.event
 
@@ -143,16 +144,34 @@ class Sched:
                 th.start()
             steps = 0
             outcome = "ok"
+            spin = 0
             while True:
                 with self.cv:
+                    waited = 0
                     while self.current is not None or any(st == "new" for st in self.state):
-                        self.cv.wait(timeout=20)
+                        self.cv.wait(timeout=5)
+                        waited += 5
+                        if waited >= 60:
+                            break
+                    if waited >= 60 and (self.current is not None or any(st == "new" for st in self.state)):
+                        # a worker is blocked outside the scheduler's control (workers are daemons: abandoned)
+                        outcome = "stuck"
+                        break
                     runnable = [i for i in range(self.n) if self.state[i] == "ready"]
                     if not runnable:
                         if all(st == "done" for st in self.state):
                             break
                         outcome = "deadlock"
                         break
+                    # a worker retrying a file lock runs only when nobody else can
+                    pref = [i for i in runnable if not (self.pending[i] and self.pending[i][0] == "flock-wait")]
+                    if pref:
+                        runnable, spin = pref, 0
+                    else:
+                        spin += 1
+                        if spin > 50:
+                            outcome = "deadlock"
+                            break
                     steps += 1
                     if steps > max_steps:
                         outcome = "livelock"
